@@ -37,6 +37,8 @@ def run(ctx, replay=None):
                 for pids, sg, title, i in monitor(h, recs):
                     if 'C12' in pids:
                         ctx.report('impl-vs-property', {k: v for k, v in sg.items() if k not in ('alloc', 'expected')}, title + ' (asan build)', {'ops': h.lines(), 'failing_line': i})
+    import harrcommon
+    harrcommon.harr_region_engine(ctx, 40 if quick else 300, ('wrong-result', 'wrong-entries'), 'values byte for byte with exact length')
     ctx.finish('private copies and independent returned copies: ownership theorems on the ledger; tie = caller buffers scribbled and freed after every call, returned copies '
                're-inspected after later mutations and after release, byte-exact reference comparison, event correspondence with the extracted scripts',
                extra_cov={'gcov_anchor_functions': gcov_report(ctx, 'h_api'),
